@@ -448,7 +448,7 @@ var c19BareAttrs = []string{"v-else", "v-once", "disabled", "checked", "required
 var c19AttrValues = []string{
 	"a", "btn btn-primary", "x == \"1\"", "x == '1'", "a && b", "a || b", "a < b", "a > b && c", "a &amp b", "a &amp; b", "&lt;", "&copy;", "x&y", "x &y", "x& y", "a&#38;b", "&#x26;", "/p?q=1&r=2", "/p?a=1&amp=2",
 	"item in items", "(i, item) in list", "fn(\"a&b\")", "{on: a&&b, \"x-y\": c>1}", "{ 'a': \"b\" }", "{\"id\":123}", "color: red; background: url('a.png')", "{{ a }}", "{{ a < b }}", "pre-{{ x }}-post", "é \"quoted\" ü",
-	"", "  lead", "trail  ", "a  b   c", "line1\nline2", "a\n    && b\n    && c", "\ttab\t", "it's", `say "hi" & 'bye'`, "a\\\"b", "<b>bold</b>", "</div>", "a>b", "1<2", "-->", "`tick`", "=", "a=b", "x\u00a0y", "&", "&&", "&amp;&amp;", "\"", "'", "\"\"",
+	"", "  lead", "trail  ", "a  b   c", "line1\nline2", "a \nb", "a\n b", "a\n\nb", "x \n y", "k\r\n v", "t\t\nu", "a\n    && b\n    && c", "\ttab\t", "it's", `say "hi" & 'bye'`, "a\\\"b", "<b>bold</b>", "</div>", "a>b", "1<2", "-->", "`tick`", "=", "a=b", "x\u00a0y", "&", "&&", "&amp;&amp;", "\"", "'", "\"\"",
 }
 
 func (g *c19G) ws() string {
